@@ -90,6 +90,39 @@ def make_stub(shape, dtype, levy, fn):
     return Stub()
 
 
+def make_proxy(shape, dtype, levy, call):
+    """A Brownian object whose __call__ is the given function call(ta, tb, return_U, return_A)."""
+    Base = _base()
+
+    class Proxy(Base):
+        def __init__(self):
+            super().__init__()
+
+        def __call__(self, ta, tb=None, return_U=False, return_A=False):
+            return call(ta, tb, return_U, return_A)
+
+        def __repr__(self):
+            return "Proxy()"
+
+        @property
+        def dtype(self):
+            return dtype
+
+        @property
+        def device(self):
+            return torch.device("cpu")
+
+        @property
+        def shape(self):
+            return tuple(shape)
+
+        @property
+        def levy_area_approximation(self):
+            return levy
+
+    return Proxy()
+
+
 def make_mapped(bm, shape, fn):
     """Proxy returning fn(component_name, tensor) applied to each returned component (W, U, A)."""
     Base = _base()
